@@ -20,6 +20,15 @@ pub struct GenericLightDataset<TI: TermIndex> {
     quads: BTreeSet<[TI::Index; 4]>,
 }
 
+/// Verification hook (compiled only with `--cfg sophia_verif`).
+#[cfg(sophia_verif)]
+impl<I: Index> GenericLightDataset<SimpleTermIndex<I>> {
+    /// See [`SimpleTermIndex::verif_audit`].
+    pub fn verif_audit(&self) -> Vec<(bool, bool)> {
+        self.terms.verif_audit()
+    }
+}
+
 impl<TI: GraphNameIndex + Default> GenericLightDataset<TI> {
     /// Construct an empty dataset
     pub fn new() -> Self {
@@ -207,6 +216,15 @@ pub struct GenericFastDataset<TI: GraphNameIndex> {
     spog: BTreeSet<[TI::Index; 4]>,
     posg: BTreeSet<[TI::Index; 4]>,
     ospg: BTreeSet<[TI::Index; 4]>,
+}
+
+/// Verification hook (compiled only with `--cfg sophia_verif`).
+#[cfg(sophia_verif)]
+impl<I: Index> GenericFastDataset<SimpleTermIndex<I>> {
+    /// See [`SimpleTermIndex::verif_audit`].
+    pub fn verif_audit(&self) -> Vec<(bool, bool)> {
+        self.terms.verif_audit()
+    }
 }
 
 impl<TI: GraphNameIndex + Default> GenericFastDataset<TI> {
